@@ -101,6 +101,37 @@ def operator_growth(element):
     return mutation(element, spans, 1, Enum('<>-=~'), judge, extra_bounds={'family': 'operator growth'})
 
 
+FOREIGN = [
+    ("Table t {\n  a int\n  indexes {\n    a [{S}]\n  }\n}\n", ['primary key', 'increment', 'not null', 'null', 'default: 1', 'ref: > t.a', 'headercolor: #fff', 'delete: cascade']),
+    ("Table t {\n  a int [{S}]\n}\n", ['type: hash', "name: 'x'", 'headercolor: #fff', 'update: cascade', 'color: #fff']),
+    ("Table t [{S}] {\n  a int\n}\n", ['pk', 'unique', 'type: hash', 'color: #fff', 'increment', 'delete: cascade', "name: 'x'"]),
+    ("Table t {\n  a int\n}\nRef: t.a > t.a [{S}]\n", ['unique', 'pk', "note: 'n'", 'delete: setnull', 'update: noaction', 'delete: setdefault', 'delete: set  null',
+                                                     'update: set', 'type: hash', 'delete: cascade restrict']),
+    ("Enum e {\n  a [{S}]\n}\n", ['pk', 'unique', 'default: 1', "name: 'x'"]),
+    ("Table t {\n  a int\n}\nTableGroup g [{S}] {\n  t\n}\n", ['headercolor: #fff', 'pk', "name: 'x'"]),
+    ("Table t {\n  a int\n  indexes {\n    a [type: {S}]\n  }\n}\n", ['b tree', 'tree', 'hash2', 'sp gist', 'ginx', '']),
+]
+
+
+def foreign_setting(ctx):
+    """a setting that exists only in another context (or a run-together / incomplete literal) is an unknown setting here"""
+    from harness.common import Harness, IntRange
+    from harness import docs
+    tmpl, settings = FOREIGN[ctx]
+
+    def body(a):
+        doc = tmpl.replace('{S}', settings[a['s']])
+        reached()
+        try:
+            docs.parse(doc)
+        except Exception:
+            return ''
+        return 'a setting that does not belong to this list was accepted'
+
+    return Harness(body, [('s', IntRange(0, len(settings) - 1))], describe=lambda a: {'document': tmpl.replace('{S}', settings[a['s']])},
+                   bounds={'context': tmpl, 'settings': settings})
+
+
 def substitution(element, family, batch, size=4):
     text = T.ELEMENTS[element]
     if family == 'struct':
@@ -185,6 +216,8 @@ def instances(tier):
                     continue
                 out.append({'name': f'sub/{fam}/{element}/b{b}', 'factory': 'substitution',
                             'params': {'element': element, 'family': fam, 'batch': b}, 'timeout': T1, 'native_limit': 60})
+    for ctx in range(len(FOREIGN)):
+        out.append({'name': f'foreign_setting/{ctx}', 'factory': 'foreign_setting', 'params': {'ctx': ctx}, 'timeout': T1, 'native_limit': 20})
     for element in ('refs', 'table'):
         out.append({'name': f'opgrow/{element}', 'factory': 'operator_growth', 'params': {'element': element}, 'timeout': T1, 'native_limit': 60})
     if quick:
